@@ -187,3 +187,143 @@ CLAIMS["C13"] = ("other",
     "attributes of rolled operations survive. F17, F18, F33 found and repaired; F16, F32, F41 are open findings.",
     "bounded by the listed configurations; Gaussian backend only",
     "deductive VC for shift_by + bounded stand-in with pulse-identifying inputs", "DESIGN.md 5/C13")
+
+
+# ---------------------------------------------------------------------------------------------------------------------
+# texts as built (supersede the entries above where both exist)
+# ---------------------------------------------------------------------------------------------------------------------
+_T = "deductive verification: VCs from the real source + z3/cvc5"
+CLAIMS["C01"] = ("proof",
+    "Every Gaussian-simulator update method (displace, squeeze, phase_shift, beamsplitter, loss, thermal_loss, init_thermal, "
+    "add_mode) is proved to implement the documented Bogoliubov / channel action on ALL entries of N, M and alpha for every "
+    "register size, target position and real parameter (trig / hyperbolic functions abstracted by their algebraic identities; "
+    "add_mode with nested loop invariants). Fock simulator: the axis bookkeeping of apply_twomode_gate (ghost axis tracker: the "
+    "gate's four indices meet the axes of the requested modes in the requested order, sizes 2-5, every ordered pair, pure and "
+    "mixed; shape-bounded) and the wrapper contract that EVERY FockBackend method addresses the simulator through the mode map "
+    "(methods found by introspection). Bounded stand-in c01_backends: generated circuits over every gate / channel / "
+    "preparation / post-selected measurement on gaussian, bosonic, fock against an independent numeric reference, incl. cat "
+    "states of any parity. F1, F2 found and repaired.",
+    _TB + "Gate kernels of the Fock simulator (thewalrus / einsum numerics) and the bosonic simulator are covered by the bounded "
+    "stand-in only; the TF backend is outside.", _T, "DESIGN.md 0.2, 5/C01")
+CLAIMS["C05"] = ("proof",
+    "Frame clauses of the Gaussian simulator: for every update method every entry of N, M, alpha outside the target rows / "
+    "columns is proved unchanged (all n, all target positions); loss(0) / init_thermal leave the target uncorrelated with the "
+    "rest. Fock simulator with ghost labelled tensors (every axis carries (mode, ket|bra); einsum strings are checked for "
+    "meaning): prepare_multimode / partial_trace / mix trace out exactly the targets and leave every other mode in place; "
+    "BaseFockState.reduced_dm keeps the requested modes (1-4 modes, every subset; shape-bounded). Bounded stand-ins: "
+    "c01_backends (operations on one part of an entangled register leave the reduced state of the rest), c06_measure.",
+    _TB + "bosonic simulator frame behaviour bounded only.", _T, "DESIGN.md 0.2, 5/C05")
+CLAIMS["C07"] = ("proof",
+    "Representation invariants hermitian(N), symmetric(M) proved preserved by every Gaussian-simulator mutator for all inputs; "
+    "loss scales N[k,k] by T. Bounded stand-in c01_backends: physicality (trace, hermiticity, positivity, uncertainty relation) "
+    "of every state produced by generated circuits incl. post-selected measurements on three backends; completeness and binomial "
+    "law of the Fock loss Kraus operators; photon-number conservation of passive gates.",
+    _TB + "Physicality from the canonical (A,B) form is a textbook lemma that is trusted; Fock / bosonic physicality is bounded only.",
+    _T, "DESIGN.md 0.2, 5/C07")
+CLAIMS["C08"] = ("proof",
+    "Representation invariants proved after every public operation, hence for every call history: ModeMap (well-formedness and "
+    "the whole alive / axis view after __init__ / reset / add / delete / remap / valid; symbolic list lengths, loop invariants, "
+    "induction lemmas); the Gaussian simulator rejects a deleted mode and leaves the state untouched; every FockBackend method "
+    "translates its mode arguments through the map and refuses deleted modes (introspected; shape-bounded); FockBackend.state "
+    "returns exactly the requested modes in the requested order (labelled tensors). Bounded stand-in c08_history: generated "
+    "histories of New / Del / gates / measurements on three backends against a reference register. F7, F53, F54 found and repaired; "
+    "F8 (bosonic New(n>1)) open.",
+    _TB + "bosonic add / delete bookkeeping bounded only.", _T, "DESIGN.md 0.2, 5/C08")
+CLAIMS["C18"] = ("proof",
+    "Program.__eq__ is proved sound for circuits of ARBITRARY length (symbolic lists of command stubs; loop invariant = the "
+    "property's per-position clause). program_equivalence: (a) one-command programs with symbolic parameters and flags, 5-class "
+    "alphabet x all placements, through the real networkx: equivalent implies same class, parameters within tolerance, same "
+    "modes (ordered for order-sensitive gates), same inverse flag; (b) programs of 2-3 commands (shape-bounded): the labelled "
+    "graphs handed to networkx carry, node by node, the command's OWN class, inverse flag, parameters and modes and the edges are "
+    "the dependencies of the circuit; node_match implies equality of all of these; the verdict of networkx is returned unchanged. "
+    "F5, F6 found and repaired.",
+    _TB + "networkx.is_isomorphic is an assumed library contract (True only if a node_match-respecting, edge-preserving bijection "
+    "exists); list_to_DAG under contract for C04.", _T, "DESIGN.md 0.2, 5/C18")
+CLAIMS["C02"] = ("proof",
+    "For Xgate, Zgate, Pgate, Fouriergate, MZgate, sMZgate, S2gate, CXgate, CZgate the REAL Gate.decompose / _decompose is executed "
+    "on opaque real parameters (symbolic hbar where it matters); the emitted command list, folded with the documented Heisenberg "
+    "action of each primitive, equals the documented action of the composite for EVERY parameter value, for the inverse form and "
+    "for every order of target modes tried. Gate.apply's first-parameter convention proved per natively applied class (fails for "
+    "MZgate: F36, F37 open). Gaussian._decompose, branches that avoid the Williamson factor: a diagonal covariance with SYMBOLIC "
+    "variances (1-2 modes, pure / mixed; shape-bounded) is reproduced by the emitted Thermal / Vacuum / Squeezed preparations "
+    "within the elision tolerance (exp / log abstracted), displacements as requested. Bounded stand-ins c02_preps (Gaussian, "
+    "GaussianTransform, graph embeddings, every Gate subclass followed by its inverse, distinct product objects) and c17_decomp "
+    "(meshes through Interferometer.decompose). F26, F27, F40 found and repaired; F39 open.",
+    _TB + "mesh command builders and LAPACK-based decompositions are bounded only.",
+    _T + " (NRA with transcendental abstraction)", "DESIGN.md 0.2, 5/C02")
+CLAIMS["C04"] = ("other",
+    "Contracts at enumerated shapes (shape-bounded, not unbounded proofs): list_to_DAG / DAG_to_list / group_operations / "
+    "optimize_circuit are executed on ABSTRACT commands (a command is its dependency set; sequences of length 1-3 quick / 4 "
+    "thorough over every combination of dependency sets on 3 modes incl. measured-parameter dependencies): the graph has an "
+    "edge path between every dependent pair in program order, every emitted order is a linear extension, nothing is lost or "
+    "duplicated. par_regref_deps / Operation.measurement_deps / Command.get_dependencies over the grammar of parameters "
+    "(every element form x container shape). Bounded stand-ins: c04_reorder (real operations incl. feed-forward, GBS "
+    "measurement collection with register histories, order-sensitive merges), c11_compilers restricted to the two "
+    "gaussian_merge reorder checks (exhaustive small sequences, opaque gates interpreted as fixed unitaries). F3, F13, F51, "
+    "F52, F56, F57 found and repaired.",
+    "no symbolic heap for dict-of-lists over networkx: sequence length and mode count are bounded; networkx sorts trusted to "
+    "return linear extensions of the DAG they are given",
+    "contracts executed on abstract commands at enumerated shapes + bounded exhaustive enumeration against an independent "
+    "dependency oracle", "DESIGN.md 0.2, 5/C04")
+CLAIMS["C03"] = (CLAIMS["C03"][0],
+    CLAIMS["C03"][1] + " optimize_circuit is additionally run against ABSTRACT operations with a free, non-commutative merge "
+    "(call order merge(earlier, later), nothing lost, maximal merging; shape-bounded).",
+    CLAIMS["C03"][2], CLAIMS["C03"][3], "DESIGN.md 0.2, 5/C03")
+CLAIMS["C15"] = (CLAIMS["C15"][0],
+    CLAIMS["C15"][1] + " Every proof also carries the frame clauses 'operation object untouched' and 'second application hands "
+    "the backend the same call'; the stand-in checks that every query of a state object is pure (data unchanged, second call "
+    "identical). F59 found and repaired.", CLAIMS["C15"][2], CLAIMS["C15"][3], "DESIGN.md 0.2, 5/C15")
+CLAIMS["C06"] = (CLAIMS["C06"][0],
+    CLAIMS["C06"][1] + " Added: the probability vector the Fock simulator hands to the RNG for sampled homodyne detection is the "
+    "Born distribution; bosonic threshold detection, both outcomes, against the Fock ket; cat states (complex component means) "
+    "split on a beamsplitter and measured by post-selected homodyne / heterodyne detection against the closed-form conditional "
+    "superposition and the Fock simulator.", CLAIMS["C06"][2], CLAIMS["C06"][3], "DESIGN.md 0.2, 5/C06")
+CLAIMS["C16"] = (CLAIMS["C16"][0],
+    CLAIMS["C16"][1] + " Fock / Gaussian index strings with ghost labelled tensors: BaseFockState.dm / trace / reduced_dm / fidelity, "
+    "FockBackend.state, pure branch of BaseGaussianState.reduced_dm for 1-5 modes. Stand-in: Wigner functions on asymmetric grids "
+    "across representations, backend.state(modes=subset) on three backends. F53, F54, F59 found and repaired.",
+    CLAIMS["C16"][2], CLAIMS["C16"][3], "DESIGN.md 0.2, 5/C16")
+CLAIMS["C09"] = ("other",
+    "Proved for all parameter values and both inverse flags: Gate.apply leaves the operation's parameter list and its elements "
+    "identical on normal AND exceptional exit (every natively applied class, found by introspection), hands p[0] negated iff "
+    "inverted, passes modes in register order; merge / Channel.merge / optimize_circuit never modify their inputs; measurement "
+    "_apply methods leave the operation untouched. At enumerated shapes (shape-bounded): BaseEngine._run against abstract program "
+    "segments hands measured values over MODE BY MODE before the successor runs, binds, locks and runs every segment once in "
+    "order; reset; Program(parent) shares nothing mutable with its parent (register references, unused indices, circuit) whatever "
+    "is later done to the successor. Bounded stand-in c09_engine: three ways of sequencing programs (registers changing on either "
+    "side of the boundary), reset = fresh engine, re-run, compile / optimize leave the user's program untouched, on three "
+    "backends. F10, F12, F61 found and repaired; F9 open.",
+    "backend API = recording stub in the proofs; equality of final quantum states across call patterns is bounded only",
+    "deductive VCs for frame conditions + contracts on abstract segments + bounded stand-in for call-history equivalence",
+    "DESIGN.md 0.2, 5/C09")
+CLAIMS["C10"] = ("other",
+    "Proved: a measured parameter is evaluated at APPLICATION time from the register's current value (latest outcome, no caching), "
+    "raises ParameterError before the measurement; every natively applied operation class (introspected) uses symbolic parameters "
+    "by value, stays symbolic afterwards and uses the new value on the next application; par_evaluate on real sympy expressions; "
+    "par_regref_deps / Operation.measurement_deps / Command.get_dependencies return exactly the registers of the measured atoms "
+    "at any depth of scalar expressions and object arrays of any shape (grammar enumerated; shape-bounded); fixed-size "
+    "decompositions are parametric (C02 contracts). Bounded stand-in: symbolic vs substituted circuits through compile / decompose "
+    "/ optimize on three backends, functions of real / integer / complex outcomes, array-valued parameters with and without the "
+    "optimiser, most recent outcome around a re-measurement, re-binding. F12, F61 found and repaired; F11 open.",
+    "sympy is executed for real (lambdify contract trusted); TF parameters not covered",
+    "deductive VCs + contracts over the parameter grammar + bounded stand-in", "DESIGN.md 0.2, 5/C10")
+CLAIMS["C12"] = (CLAIMS["C12"][0],
+    CLAIMS["C12"][1] + " Added stand-in c12_device: compilation against a device specification (layout template, allowed values "
+    "and ranges incl. hard-coded layout parameters, unions of ranges for arrays, mode and measurement limits): valid sources "
+    "compile to the device topology with allowed parameters and the same Gaussian state, invalid ones are refused. F55 found and "
+    "repaired.", CLAIMS["C12"][2], CLAIMS["C12"][3], "DESIGN.md 0.2, 5/C12")
+CLAIMS["C13"] = ("other",
+    "Proved for all values: shift_by is the cyclic rotation for every list length; roll / unroll / space_unroll as a TYPESTATE "
+    "contract - each is called on an arbitrary state satisfying the representation invariant (rolled | unrolled(k shots) | "
+    "space-unrolled(k shots); symbolic register size, time bins, shots, added modes; callees replaced by their contracts, the "
+    "register by its length with Python's slice semantics) and re-establishes it, so for EVERY call history: roll restores circuit "
+    "and register exactly, the circuit is the unrolling of the requested kind for the requested shots, refusals change nothing, "
+    "the locked flag survives. At enumerated shapes (10 band / shift layouts x 1-3 time bins x 1-2 shots quick, up to 7 bins / 3 "
+    "shots thorough; per-bin values symbolic; shape-bounded): _unroll_program + apply_op emit exactly the explicit loop (class, "
+    "inverse flag, post-selection, constants, entry t of each array, register positions after g shifts; rolled commands "
+    "untouched); reshape_samples puts the outcome of pulse (shot, band, bin) at that entry (8 band layouts, symbolic outcomes). "
+    "Bounded stand-in c13_tdm: joint states against the hand-written loop, cropping, engine runs. F17, F18, F33, F60 found and "
+    "repaired; F16, F32, F41, F58 open.",
+    "joint quantum states of unrolled programs and engine-side options are bounded only (Gaussian backend)",
+    "deductive VCs (typestate invariant over symbolic integers) + contracts at enumerated shapes + bounded stand-in",
+    "DESIGN.md 0.2, 5/C13")
